@@ -61,6 +61,9 @@ def make_cases(rng, tier):
     for i in range(max(15, n // 80)):  # long K-free histories (thresholds inside the queue code)
         g = kfree.KFree(rng)
         cs.append((g.price, g.history(rng.randint(150, 400)) + ["MATCH 18446744073709551615 u7999"]))
+    for i in range(n // 6):            # small books with many amendments / cancels (dead queue entries pile up)
+        g = kfree.KFree(rng, w_add=0.08, w_match=0.12, w_cancel=rng.choice([0.05, 0.3]))
+        cs.append((g.price, g.history(rng.randint(15, 80)) + ["MATCH 18446744073709551615 u7999"]))
     for i in range(n // 2):            # unrestricted half (re-adds, partial fills, replenishment, amendments)
         g = lvl.HistGen(rng, rebuilds=False, reads=False)
         cs.append((g.price, g.history(rng.randint(5, 30)) + ["MATCH 18446744073709551615 u7999"]))
